@@ -304,6 +304,7 @@ func (c *Ctx) clientSubscribeClosure() {
 		return
 	}
 	pos := c.P.Pos(cl.Pos())
+	c.closureRangesOverOwnRequest(cl, "SubscribeMessage", "client-subscribe:walks-the-stored-request")
 	g := paths.New(c.P, cl, 0)
 	treeSub := nodeM(mMethod(pkgTopics, "Manager", "Subscribe"))
 	if len(nodesMatching(g, treeSub)) == 0 {
@@ -440,6 +441,7 @@ func (c *Ctx) clientUnsubscribeClosure() {
 		return
 	}
 	pos := c.P.Pos(cl.Pos())
+	c.closureRangesOverOwnRequest(cl, "UnsubscribeMessage", "client-unsubscribe:walks-the-stored-request")
 	l := loopOver(cl, func(call *ssa.Call) bool {
 		return ir.IsMethod(call.Common(), pkgMessage, "UnsubscribeMessage", "Topics")
 	})
